@@ -5,7 +5,8 @@ Space  : scope trees (vf/spaces/scopes.py): kinds {module, def, class, lambda, l
          the role catalogue. quick: all trees with <= 3 scopes (3-scope trees under 4 of the 8 configurations: one unparser per
          (wrapper, if-style) pair, default included); thorough: <= 4 scopes x 8 configurations.
          Plus every CHAIN (one child per scope) of 4 (quick) / 4 and 5 (thorough) scopes over a reduced role
-         catalogue (global/nonlocal/param/assign/read forms), which reaches three nested functions.
+         catalogue (global/nonlocal/param/assign/read forms), which reaches three nested functions; and every FORK
+         (module > function with a sibling def/class next to a chain of <= 2 scopes, both orders) over the same catalogue.
 Oracle : CPython must compile and run the program without exception (else skipped, counted); then
          equal log (values observed before/after inner scopes run) and equal final globals.
 """
@@ -19,6 +20,15 @@ LEVEL = "exploration"
 
 
 def run_shard(shard):
+    if shard[0] == "fork":
+        _, full, r, k, cfgs = shard
+        res = core.ShardResult()
+        for idx, t in enumerate(scopes.forks(full)):
+            if idx % k != r:
+                continue
+            res.c["candidates"] += 1
+            progcheck.check_program(res, "c06:" + scopes.key(t), scopes.render(t), cfgs, env=scopes.env, envname="scopes")
+        return res
     if shard[0] == "chain":
         _, n, r, k, cfgs = shard
         res = core.ShardResult()
@@ -59,6 +69,10 @@ def shards(tier):
         k = 64 if n == 4 else 512
         for r in range(k):
             out.append(("chain", n, r, k, [4, 1, 2, 7] if tier == "quick" else core.ALL_CFG))
+    # forks: a function with a sibling scope that changes how its variable is stored, next to a chain using the name
+    k = 64 if tier == "quick" else 256
+    for r in range(k):
+        out.append(("fork", tier == "thorough", r, k, [4, 1, 2, 7] if tier == "quick" else core.ALL_CFG))
     return out
 
 
